@@ -92,6 +92,27 @@ def correspondence(ctx):
         s.meta = {"empty-result": k}
         scns.append(s)
         chains[id(s)] = blocks
+    # a crowded block: thousands of transactions in ONE block, each spending an output of the one before it (created and spent inside the
+    # block), a few of the in-block outputs left unspent, plus spends of an earlier block's outputs
+    for k, ntx in enumerate([300, 2600] if not ctx.thorough() else [300, 2047, 2048, 2600, 9000]):
+        coin = ["bitcoin", "litecoin"][k % 2]
+        a = [b"\x76\xa9\x14" + GC.rb(r, 20) + b"\x88\xac" for _ in range(5)]
+        cb0 = GH.coinbase(0, [(50 * 10**8, a[0]), (7, a[1])])
+        b0 = K.Block([cb0], time=1231006505)
+        txs = [GH.coinbase(1, [(50 * 10**8, a[2])])]
+        prev_tx = cb0
+        for q in range(ntx):
+            t = K.Tx([(prev_tx.txid(), 0, b"\x01\x01" if q % 9 else GC.rb(r, 253 + q % 3), 0xffffffff)], [(10**6 + q, a[q % 5]), (q, a[(q + 1) % 5] if q % 4 else b"\x6a\x01\x41")])
+            txs.append(t)
+            prev_tx = t
+        b1 = K.Block(txs, time=1231007105)
+        b2 = K.Block([GH.coinbase(2, [(1, a[3])]), K.Tx([(txs[5].txid(), 1, b"", 1), (txs[ntx // 2].txid(), 1, b"", 1)], [(3, a[4])])], time=1231007705)
+        blocks = GH.link([b0, b1, b2])
+        s = K.Scenario(coin=coin, callback="unspentcsvdump")
+        GC.simple_layout(s, blocks)
+        s.meta = {"crowded-block": ntx}
+        scns.append(s)
+        chains[id(s)] = blocks
     # chains that begin with the coin's REAL genesis block (its 50-coin pay-to-pubkey output is an unspent output like any other)
     from .. import genesis
     for k, (coin, g) in enumerate(sorted(genesis.candidates().items()) * (1 if not ctx.thorough() else 4)):
